@@ -52,8 +52,8 @@ Definition exact_ops : numops N :=
 
 (** [Saturating<uW>] ([w] = 64 or 128): [T::MAX] is the out-of-range marker.
     - [Add]: [saturating_add];
-    - [Shl]: [checked_shl(rhs).unwrap_or(MAX)] -- [checked_shl] fails only for
-      [rhs >= W]; for smaller shift amounts the bits shifted out are lost;
+    - [Shl]: 0 stays 0; [MAX] if [rhs > leading_zeros], i.e. as soon as a 1 bit
+      would be shifted out; otherwise [self.0 << rhs];
     - [Shr]: the marker is kept, any other value is shifted (the shift amounts
       that occur are below [W]). *)
 Definition sat_max (w : N) : N := (2 ^ w - 1)%N.
@@ -61,7 +61,9 @@ Definition sat_max (w : N) : N := (2 ^ w - 1)%N.
 Definition sat_ops (w : N) : numops N :=
   mkOps N 0%N 1%N
         (fun a b => N.min (a + b) (sat_max w))
-        (fun x k => if (N.of_nat k <? w)%N then ((x * 2 ^ N.of_nat k) mod 2 ^ w)%N else sat_max w)
+        (fun x k => if (x =? 0)%N then 0%N
+                    else if (w - N.size x <? N.of_nat k)%N then sat_max w
+                    else ((x * 2 ^ N.of_nat k) mod 2 ^ w)%N)
         (fun x k => if (x =? sat_max w)%N then sat_max w else (x / 2 ^ N.of_nat k)%N)
         0.
 
